@@ -40,6 +40,22 @@ func main() {
 		}
 		return
 	}
+	if len(os.Args) >= 2 && os.Args[1] == "callers" {
+		// lemolint callers [--repo dir]: print, for every private function with static callers, "<function spec>\t<caller spec>" lines
+		fs := flag.NewFlagSet("callers", flag.ExitOnError)
+		repo := fs.String("repo", "/repo", "repository")
+		fs.Parse(os.Args[2:])
+		abs, _ := filepath.Abs(*repo)
+		prog, err := core.Load(abs, nil)
+		if err != nil {
+			fmt.Println(err)
+			os.Exit(2)
+		}
+		for _, l := range core.PrivateCallers(prog) {
+			fmt.Println(l)
+		}
+		return
+	}
 	if len(os.Args) < 3 || os.Args[1] != "check" {
 		fmt.Println("usage: lemolint check <Cxx>|all [--repo dir] [--verif dir] [--tier quick|thorough] [--list]")
 		os.Exit(2)
@@ -91,6 +107,7 @@ func main() {
 			}
 		}
 	}
+	core.RefCallers = readCallers(filepath.Join(*verif, "reference", "callers.txt"))
 	prog, err := core.LoadOverlay(absRepo, env, overlay)
 	if err != nil && overlay != nil {
 		normNotes = append(normNotes, "the normalised tree does not load ("+err.Error()+"); the tree is analysed as it is")
@@ -191,4 +208,20 @@ func readKnown(path string) (map[string]bool, error) {
 		return nil, fmt.Errorf("reference table too small")
 	}
 	return out, nil
+}
+
+// readCallers reads reference/callers.txt (function spec -> reference caller specs).
+func readCallers(path string) map[string][]string {
+	out := map[string][]string{}
+	b, err := os.ReadFile(path)
+	if err != nil {
+		return out
+	}
+	for _, l := range strings.Split(string(b), "\n") {
+		p := strings.Split(l, "\t")
+		if len(p) == 2 {
+			out[p[0]] = append(out[p[0]], p[1])
+		}
+	}
+	return out
 }
